@@ -277,3 +277,80 @@ def _r_dec0(f):
                                        _e('a') + " " + _e('p') + ' "1"', _e('b') + " " + _e('p') + ' "1"'])
     out = Shaper(raw_graph=nt, all_classes_mode=True, decimals=0).shex_graph(string_output=True)
     return "66 %" in out
+
+
+# ------------------------------------------------------------------ C03: the three root causes outside the strict domain
+def _values(g, node, prop, inv):
+    return [s if inv else o for s, p, o in g if p == prop and ((o[0] in 'IB' and o[1] == node) if inv else s[1] == node)]
+
+
+@trigger("c03_shape_ref_on_tie")
+def _t_c03_tie(f, obs):
+    """a shape reference was chosen although some value of the property is not an instance of that shape
+    (the reference wins a tie on instance count: `<` in _no_bnode_merging_strategy) - only outside the strict domain"""
+    if obs.get("kind") != "conformance" or obs["strict"]:
+        return False
+    e = obs["error"]
+    sts = [st for sh in obs["parsed"]['shapes'] for st in sh['stmts'] if st['inv'] == e['inv'] and st['prop'] == e['prop']]
+    return any(t.startswith('%<') for st in sts for t in st['types'])
+
+
+@trigger("c03_nonliteral_merge")
+def _t_c03_nl(f, obs):
+    if obs.get("kind") != "conformance" or obs["strict"]:
+        return False
+    e = obs["error"]
+    return e['kind'] == 'cardinality' and 'NONLITERAL' in e.get('types', [])
+
+
+@trigger("c03_keep_less_specific_off")
+def _t_c03_kls(f, obs):
+    """keep_less_specific=False: '?' (or an exact cardinality at 100 %) emitted while another instance has more values"""
+    if obs.get("kind") != "conformance" or obs["cfg"]["keep_less_specific"]:
+        return False
+    return obs["error"]['kind'] == 'cardinality'
+
+
+@trigger("c03_mixed_kinds_outside_domain")
+def _t_c03_mixed(f, obs):
+    """outside the strict domain a value of a node kind that lost the merge (IRI vs BNode vs shape) is unmatched"""
+    if obs.get("kind") != "conformance" or obs["strict"]:
+        return False
+    e = obs["error"]
+    return e['kind'] == 'value-unmatched' and e['value'][0] in 'IB'
+
+
+@replayer("c03_shape_ref_on_tie")
+def _r_c03_tie(f):
+    nt = "".join(l + " .\n" for l in [_e('a') + " " + _T + " " + _e('C'), _e('a') + " " + _e('p') + " " + _e('x'), _e('a') + " " + _e('p') + " " + _e('u'),
+                                       _e('x') + " " + _T + " " + _e('D')])
+    out = _run_pinned(nt)
+    return any("example.org/p" in l and "@" in l and "#" in l for l in out.split("\n"))
+
+
+@replayer("c03_keep_less_specific_off")
+def _r_c03_kls(f):
+    nt = "".join(l + " .\n" for l in [_e('a') + " " + _T + " " + _e('C'), _e('b') + " " + _T + " " + _e('C'), _e('c') + " " + _T + " " + _e('C'),
+                                       _e('a') + " " + _e('p') + ' "1"', _e('b') + " " + _e('p') + ' "1"', _e('b') + " " + _e('p') + ' "2"'])
+    out = _run_pinned(nt, keep_less_specific=False)
+    return any("example.org/p" in l and "?" in l.split("#")[0] for l in out.split("\n"))
+
+
+# ------------------------------------------------------------------ C09
+@trigger("c09_tie_dependent_facts")
+def _t_c09_tie(f, obs):
+    """alternatives tie in count: which of the tied alternatives wins (and hence which true figures are printed
+    in comments) depends on dictionary order, i.e. on statement order"""
+    return obs.get("kind") in ("evidence", "choice") and bool(obs.get("tie"))
+
+
+@replayer("c09_tie_dependent_facts")
+def _r_c09_tie(f):
+    a = "".join(l + " .\n" for l in [_e('a') + " " + _T + " " + _e('C'), _e('b') + " " + _T + " " + _e('C'),
+                                      _e('a') + " " + _e('p') + ' "1"', _e('b') + " " + _e('p') + ' "1"', _e('b') + " " + _e('p') + ' "2"'])
+    b = "".join(l + " .\n" for l in [_e('b') + " " + _T + " " + _e('C'), _e('a') + " " + _T + " " + _e('C'),
+                                      _e('b') + " " + _e('p') + ' "1"', _e('b') + " " + _e('p') + ' "2"', _e('a') + " " + _e('p') + ' "1"'])
+    o1 = _run_pinned(a, keep_less_specific=False)
+    o2 = _run_pinned(b, keep_less_specific=False)
+    strip = lambda o: sorted(l.strip() for l in o.split("\n") if "example.org/p" in l or "Cardinality" in l)
+    return strip(o1) != strip(o2)
